@@ -312,6 +312,19 @@ fn build_schedule(cfg: &IngestCfg, world: &LogWorld) -> Vec<Delivery> {
             ctx::fault("duplicate");
             ds.push(Delivery { op: op.clone(), forged: None, honest_of: op.hash });
         }
+        // A Byzantine *author* (it has the key): validly signed operations which do not extend the
+        // log — a skipped sequence number with the backlink of the real predecessor, or the right
+        // sequence number with a backlink to some other operation.
+        if cfg.faults && op.header.seq_num > 0 && ctx::chance("sched.byz_author", 1, 10) {
+            if let Some(key) = world.keys.iter().find(|k| k.verifying_key() == op.header.verifying_key) {
+                let skip = ctx::chance("byz.skip", 1, 2);
+                let other = ctx::pick("byz.other", &all).clone();
+                let (seq, backlink) = if skip { (op.header.seq_num + 1 + ctx::choose("byz.by", 3) as u32, op.header.backlink) } else { (op.header.seq_num, Some(if Some(other.hash) != op.header.backlink { other.hash } else { Hash::digest(b"byz backlink") })) };
+                let b = simworld::logworld::make_op(key, op.header.extensions.log_id, seq, backlink, false, simworld::logworld::make_body(seq as u64 ^ 0xb12, 1));
+                ctx::fault(if skip { "byzantine_op(author_signed_seq_skip)" } else { "byzantine_op(author_signed_wrong_backlink)" });
+                ds.push(Delivery { honest_of: b.hash, op: b, forged: None });
+            }
+        }
         if cfg.faults && cfg.forge_num > 0 && ctx::chance("sched.forge", cfg.forge_num, 8) {
             let kind = *ctx::pick("forge.kind", &MUTATIONS);
             let other = ctx::pick("forge.other", &all).clone();
